@@ -208,6 +208,9 @@ func replayCodec(id, fn string, a1, a2 []byte) {
 		})
 	case "htmlescape":
 		res = guarded(func() string { var b bytes.Buffer; ijson.HTMLEscape(&b, a2); return codecObs(b.Bytes(), nil) })
+	case "compactesc":
+		// compact(dst, src, escape = true), reached through MarshalEscaped of a raw message
+		res = guarded(func() string { return codecObs(ijson.MarshalEscaped(ijson.RawMessage(a2), true)) })
 	case "roundtrip":
 		res = guarded(func() string {
 			var v interface{}
